@@ -308,5 +308,20 @@ pub fn special_ext_tasks() -> Vec<ExtTask> {
         mk("spec: forall X (out(X) <-> in(X) and X <= n).", true, "out(X) :- in(X), X <= n.", "input: in/1. output: out/1. input: n.", ""),
         mk("spec: forall X Y (out(X,Y) <-> in(X) and in(Y) and X < Y).", true, "out(X,Y) :- in(X), in(Y), X < Y.", "input: in/1. output: out/2.", ""),
         mk("spec: out <-> exists X in(X).", true, "out :- in(X).", "input: in/1. output: out/0.", ""),
+        // a symbol that clashes with a propositional predicate in every position of a comparison / atom
+        mk("a :- in(X). out(X) :- in(X), a != X, not a.", false, "out(X) :- in(X), not a, a != X. a :- in(X).", "input: in/1. output: out/1.", ""),
+        mk("a :- in(X). out(X) :- in(X), a < X, X <= a.", false, "out(X) :- in(X), X <= a, a < X. a :- in(X).", "input: in/1. output: out/1.", ""),
+        mk("spec: forall X (out(X) <-> in(X) and a != X and X != a and not a). assumption: a <-> exists X in(X).", true, "a :- in(X). out(X) :- in(X), a != X, not a.", "input: in/1. output: out/1.", ""),
+        mk("out(X) :- in(X), a != X.", false, "out(X) :- in(X), X != a.", "input: in/1. output: out/1. output: a/0.", "lemma: forall X (out(X) -> a != X)."),
+        // predicates s and s__s next to symbols s, sZ, s0 (repeated clash renaming, ordering)
+        mk("a :- in(a). a__s :- in(aZ). out(X) :- in(X), a, a__s.", false, "a__s :- in(aZ). a :- in(a). out(X) :- in(X), a__s, a.", "input: in/1. output: out/1.", ""),
+        mk("a :- in(a), in(a0). a__s :- in(a_). out(X) :- in(X), not a, not a__s.", false, "out(X) :- in(X), not a__s, not a. a__s :- in(a_). a :- in(a0), in(a).", "input: in/1. output: out/1.", ""),
+        // public propositional predicates defined by facts / choices / nothing
+        mk("{p}. q :- p.", false, "p. q.", "output: p/0. output: q/0.", ""),
+        mk("p. q.", false, "{p}. q :- p.", "output: p/0. output: q/0.", ""),
+        mk("p.", false, "{p}.", "output: p/0.", ""),
+        mk("p :- not q. q :- not p.", false, "{p}. q :- not p.", "output: p/0. output: q/0.", ""),
+        mk("p. out(X) :- in(X), p.", false, "out(X) :- in(X).", "input: in/1. output: out/1. output: p/0.", ""),
+        mk("spec: p. spec: q <-> p.", true, "p. q :- p.", "output: p/0. output: q/0.", ""),
     ]
 }
